@@ -95,6 +95,43 @@ REGISTRY = {
         assumptions=COMMON_ASSUMPTIONS[:1] + COMMON_ASSUMPTIONS[2:] + ["`one` is only placed on square diagonal blocks (its documented meaning: identity at zeroth order)"],
         timeout_s={"quick": 300, "thorough": 900},
     ),
+    "C12": dict(
+        jobs=lambda tier, seed: __import__("vf.props.relations", fromlist=["x"]).configs_c12a(tier),
+        job_of_config=_job_of("vf.props.relations", "c12a"),
+        technique="2-safety (non-interference) query on the real block_diagonalize: Hamiltonian terms of order m<=n share variables x, all other terms get independent variables y / y'; "
+        "z3 decides output_n(x,y) != output_n(x,y') for H_tilde, U, U_inv at every order n of the box; plus the concrete call log of a lazily defined Hamiltonian BlockSeries, "
+        "exhaustive over output x block x order of the box: definition evaluates zeroth order only, a request at n evaluates only m<=n componentwise and nothing twice",
+        bounds={
+            "quick": "layouts {1|1,1|2,2|1,1|1|1}, both modes; 1 parameter: terms at orders 1..4, requests to order 3; 2 parameters: terms to total order 2, requests to total order 2; full-diag and mask variants on carrier A",
+            "thorough": "adds 2|2 and 1|1|2, two parameters with terms to total order 3",
+        },
+        assumptions=COMMON_ASSUMPTIONS + ["only evaluations of the user's Hamiltonian series are counted (internal series may be re-evaluated after deletion)"],
+        timeout_s={"quick": 300, "thorough": 900},
+    ),
+    "C13": dict(
+        jobs=lambda tier, seed: __import__("vf.props.relations", fromlist=["x"]).configs_c13(tier),
+        job_of_config=_job_of("vf.props.relations", "c13"),
+        technique="pairs of real block_diagonalize runs over shared symbolic inputs related by: scaling perturbation k by a SYMBOLIC factor c_k, merging two parameters, permuting parameters, adding a vanishing parameter, lambda->lambda^p; "
+        "z3 decides the transformed-output relation for H_tilde, U, U_inv at every order",
+        bounds={
+            "quick": "layouts {1|1,1|2,2|1,1|1|1}, both modes, rational (complex for non-Hermitian) spectra to total order 3 and symbolic spectra to order 2; relations scale(1,2 params incl. mixed term), merge, permute, vanishing, power 2; masks/full diag on carrier A",
+            "thorough": "adds 2|2, 1|1|2, 3, 1|3, power 3 and 3-parameter cyclic permutation",
+        },
+        assumptions=COMMON_ASSUMPTIONS,
+        timeout_s={"quick": 300, "thorough": 1200},
+    ),
+    "C15": dict(
+        jobs=lambda tier, seed: __import__("vf.props.relations", fromlist=["x"]).configs_c15(tier),
+        job_of_config=_job_of("vf.props.relations", "c15"),
+        technique="pairs/triples of real block_diagonalize runs over shared symbolic inputs related by block relabelling (all permutations), basis permutation, complex conjugation, symbolic shift mu of H_0, "
+        "symbolic positive scale s, Cayley-parametrised rotation (symbolic t, phase u) inside a degenerate level, direct sum of two decoupled symbolic problems; z3 decides the covariance relation for H_tilde, U, U_inv at every order",
+        bounds={
+            "quick": "layouts up to N=4 (1|2,2|1,1|1|2,1|2|1,2|2,1|3), both modes, orders <=3, rational/complex exact spectra and symbolic spectra (shift, relabel) to order 2; full and selective diagonalisation on carrier A",
+            "thorough": "adds all block permutations of 2|2,1|1|1,2|1|1,1|3, rotations in 2|2, 3|1, 1|1|2 to order 3, larger direct sums",
+        },
+        assumptions=COMMON_ASSUMPTIONS + ["the float-relative degeneracy threshold (1e-5 / atol) is a rounding statement and outside the claim", "scale factor s > 0, rotation denominators 1+t^2, 1+u^2 are atoms"],
+        timeout_s={"quick": 300, "thorough": 1200},
+    ),
 }
 
 # Properties not (yet) claimed, each with the reason.  Entries disappear as checks are registered.
